@@ -18,9 +18,14 @@ import SpsdkVerif.Proofs.Mboot
 import SpsdkVerif.Proofs.MbootFault
 import SpsdkVerif.Proofs.MbootRefine
 import SpsdkVerif.Proofs.MbootBound
+import SpsdkVerif.Proofs.MbootTrunc
 import SpsdkVerif.Model.Sdp
 import SpsdkVerif.Generated.SdpConsts
 import SpsdkVerif.Proofs.Sdp
+import SpsdkVerif.Proofs.SdpRefine
+import SpsdkVerif.Model.MbootProps
+import SpsdkVerif.Generated.MbootProps
+import SpsdkVerif.Proofs.MbootProps
 
 namespace SpsdkVerif.C10
 open SpsdkVerif SpsdkVerif.Mboot SpsdkVerif.Mboot.Fault
@@ -250,6 +255,26 @@ theorem no_response_never_succeeds (h : Host) (op : Op) (hs : Starved h) (ht : t
     ¬ succeeded (runOp op h).1 (runOp op h).2 :=
   silent_link_never_succeeds h op hs ht
 
+/-- **truncated response, at EVERY position**: the device→host byte stream of the CRC-framed serial link (whatever it
+    contains: well-formed or garbage) is cut after `k` bytes, for every `k`, in the middle of a frame, between frames,
+    in the middle of a data phase: the operation is observably identical to the run on the full stream (result, status
+    code, bytes written), or it does not report success.  (`talks` excludes exactly: `open` over HID, a zero-length
+    chunked read, `load_image` over HID or of nothing, and `reset`, whose missing response is ignored by design.) -/
+theorem truncation_safe_serial (h : Host) (op : Op) (k : Nat) (cs : List (List Bytes))
+    (htr : h.cfg.tr = .serial) (hstrict : h.cfg.partialReads = false) (hpeer : h.peer = .script cs)
+    (ht : talks h.cfg op) :
+    observable (runOp op (h.truncate k)) = observable (runOp op h) ∨
+      ¬ succeeded (runOp op (h.truncate k)).1 (runOp op (h.truncate k)).2 :=
+  Trunc.truncation_safe_serial h op k cs htr hstrict hpeer ht
+
+/-- … and over USB-HID: the stream is cut after any number of whole reports (a report cut short is refused by
+    `hid_truncated_report_refused`) -/
+theorem truncation_safe_hid (h : Host) (op : Op) (k : Nat) (cs : List (List Bytes))
+    (htr : h.cfg.tr = .hid) (hpeer : h.peer = .script cs) (ht : talks h.cfg op) :
+    observable (runOp op (h.truncateReports k)) = observable (runOp op h) ∨
+      ¬ succeeded (runOp op (h.truncateReports k)).1 (runOp op (h.truncateReports k)).2 :=
+  Trunc.truncation_safe_hid h op k cs htr hpeer ht
+
 /-- **the link goes silent before or during the data phase of a write**: `_send_data` raises -/
 theorem write_data_phase_silent_link_raises (h : Host) (cs : List Bytes) (hs : Starved h) :
     ∃ e, (sendData cs h).1 = .error e :=
@@ -289,6 +314,13 @@ theorem send_data_true_only_if_all_acked (h h' : Host) (cs : List Bytes) (hne : 
     (hr : sendData cs h = (.ok true, h')) :
     (∃ h1, sendChunks h.eda cs 0 h = (.ok ((cs.map List.length).sum, none), h1)) ∧ h'.status = Spec.stSuccess :=
   sendData_true h h' cs hne hr
+
+/-- … the same for `load_image` (`_send_data(NO_COMMAND, …)`, no final response): `True` only if every packet was written
+    without error — a NAK/ABORT/timeout on the LAST packet's acknowledgement yields `False`, on ANY stream -/
+theorem load_image_true_only_if_all_acked (h h' : Host) (cs : List Bytes) (hne : ∀ c ∈ cs, c ≠ [])
+    (hr : sendDataNoResp cs h = (.ok true, h')) :
+    ∃ h1, sendChunks h.eda cs 0 h = (.ok ((cs.map List.length).sum, none), h1) :=
+  sendDataNoResp_true h h' cs hne hr
 
 /-- **NAK / ABORT instead of the ACK of a command**: McuBootConnectionError / McuBootDataAbortError is raised -/
 theorem nak_abort_raise (h : Host) (p : CmdPkt) (x : Bytes) (hwf : p.WF) (ho : h.opened = true)
@@ -436,7 +468,98 @@ theorem sdp_read_data_complete (length : Nat) (d : Bytes) (h h' : Sdp.Host)
     (hr : Sdp.readData length h = (.ok d, h')) : d.length = length :=
   Sdp.readDataLoop_length length (length + h.rxR.length + h.fuelHint + 1) [] d h h' hr
 
+/-- `sdp_op_refines`: one SDP operation (read / write register, write file / dcd / csf, skip dcd, jump, read status) in closed
+    loop with the reference i.MX ROM — over `SDPSerialProtocol` and over `SDPBulkProtocol` (USB-HID reports) — has exactly
+    the effect `Sdp.specOp` defines: read bytes are the ROM's memory for every length (64-byte blocks), written bytes are in
+    ROM memory once and in order, a refused write / file reports `False` (or raises) with the failure status, `status_code`
+    and `hab_status` mirror the HAB word, and host and ROM are in step again -/
+theorem sdp_op_refines (h : Sdp.Host) (r r' : Sdp.Rom) (op : Sdp.Op) (res : Except Sdp.SErr Sdp.Val) (st hab : Nat)
+    (hs : Sdp.Synced h r) (hr : r.OK) (hargs : op.argsOK) (hspec : Sdp.specOp h.ce r op = some (r', res, st, hab)) :
+    ∃ h', Sdp.runOp op h = (res, h') ∧ Sdp.Synced h' r' ∧ h'.status = st ∧ h'.hab = hab ∧ h'.ce = h.ce ∧ h'.tr = h.tr ∧
+      h'.packSize = h.packSize :=
+  Sdp.sdp_op_refines h r r' op res st hab hs hr hargs hspec
+
+/-- `sdp_no_fault_refines`: any sequence of SDP operations, by induction over the history -/
+theorem sdp_no_fault_refines (ops : List Sdp.Op) (h : Sdp.Host) (r r' : Sdp.Rom)
+    (rs : List (Except Sdp.SErr Sdp.Val × Nat × Nat))
+    (hs : Sdp.Synced h r) (hr : r.OK) (hargs : ∀ op ∈ ops, op.argsOK) (hspec : Sdp.specOps h.ce ops r = some (rs, r')) :
+    ∃ h', Sdp.runOps ops h = (rs, h') ∧ Sdp.Synced h' r' :=
+  Sdp.sdp_no_fault_refines ops h r r' rs hs hr hargs hspec
+
+/-- SDPS / SDP-over-HID framing: the reports carry exactly the image once and in order, each `1 + size` bytes with the
+    report id first, `⌈len/size⌉` of them -/
+theorem sdps_reports_deliver (rid size : Nat) (b : Bytes) (hs : 0 < size) :
+    (((Sdp.hidFrames rid size b).map (List.drop 1)).flatten.take b.length = b) ∧
+    (∀ f ∈ Sdp.hidFrames rid size b, f.length = 1 + size ∧ f.head? = some (UInt8.ofNat rid)) ∧
+    ((Sdp.hidFrames rid size b).length = (b.length + size - 1) / size) :=
+  Sdp.hidFrames_deliver rid size b hs
+
+/-! ## 8. property values are decoded as the device sent them (`parse_property_value`, Model/MbootProps.lean) -/
+
+def className : MbootProps.PClass → String × List Nat
+  | .version => ("VersionValue", [1])
+  | .peripherals => ("AvailablePeripheralsValue", [1])
+  | .int => ("IntValue", [1])
+  | .commands => ("AvailableCommandsValue", [1])
+  | .enum => ("EnumValue", [1])
+  | .bool tv => ("BoolValue", tv)
+  | .regions => ("ReservedRegionsValue", [1])
+  | .uid => ("DeviceUidValue", [1])
+  | .extMem => ("ExternalMemoryAttributesValue", [1])
+  | .irq => ("IrqNotifierPinValue", [1])
+  | .fuseLock => ("FuseLockedStatus", [1])
+  | .intList => ("IntListValue", [1])
+
+/-- the `PROPERTIES` dict regenerated from the source is the model's `classOf`, for every tag byte
+    (a tag without an entry is decoded as `PropertyTag.UNKNOWN`), and the enum lists the decoders iterate over agree -/
+theorem gen_property_table_agrees :
+    (List.range 256).all (fun t =>
+      ((Generated.MbootProps.propertyClasses.lookup t).getD
+        ((Generated.MbootProps.propertyClasses.lookup 255).getD ("?", []))) == className (MbootProps.classOf t)) = true ∧
+    Generated.MbootConsts.commandTags.map (·.2) = MbootProps.allCommandTags ∧
+    Generated.MbootProps.peripheryTags.map (·.2) = MbootProps.allPeripheryTags ∧
+    Generated.MbootProps.extMemPropTags.map (·.2) = [0, 1, 2, 4, 8, 16] := by decide +kernel
+
+/-- a version word whose mark byte is an upper-case letter or zero is reported exactly (`VersionValue.to_int()`);
+    any other mark byte is dropped by `Version.from_int` — e.g. `0x20010203` is reported as `0x00010203` -/
+theorem version_reported_as_sent (v : Nat) (hv : v < 2 ^ 32)
+    (hm : (64 < v / 2 ^ 24 ∧ v / 2 ^ 24 < 91) ∨ v / 2 ^ 24 = 0) :
+    (MbootProps.Version.fromInt v).toInt = v :=
+  MbootProps.toInt_fromInt v (by simpa using hv) (by simpa using hm)
+
+/-- version comparison is the lexicographic order of (major, minor, fixation), the mark is ignored -/
+theorem version_order (a b : Nat) :
+    (MbootProps.Version.fromInt a).le (MbootProps.Version.fromInt b) =
+      decide (a % 2 ^ 24 ≤ b % 2 ^ 24) := by
+  obtain ⟨_, a2, a3, _⟩ := MbootProps.fromInt_fields a
+  obtain ⟨_, b2, b3, _⟩ := MbootProps.fromInt_fields b
+  simp only [MbootProps.Version.le, MbootProps.toInt_noMark _ a2 a3, MbootProps.toInt_noMark _ b2 b3]
+  simp only [MbootProps.Version.fromInt, MbootProps.shr_mod]
+  congr 1
+  apply propext
+  constructor <;> intro h <;> omega
+
+/-- reserved regions: exactly the device's `(start, end)` pairs with a non-zero end, in order; an odd word count is refused -/
+theorem reserved_regions_as_sent (ps : List (Nat × Nat)) (x : Nat) :
+    MbootProps.regionsOf (ps.flatMap (fun q => [q.1, q.2])) = .ok (ps.filter (fun q => q.2 ≠ 0)) ∧
+    MbootProps.regionsOf (ps.flatMap (fun q => [q.1, q.2]) ++ [x]) = .error .other :=
+  ⟨MbootProps.regionsOf_pairs ps, MbootProps.regionsOf_odd ps x⟩
+
+/-- available commands: a command tag is listed iff it is a known tag and its bit `tag − 1` is set in the device's word -/
+theorem available_commands_as_sent (v t : Nat) :
+    t ∈ MbootProps.commandTagsOf MbootProps.allCommandTags v ↔
+      t ∈ MbootProps.allCommandTags ∧ 0 < t ∧ v.testBit (t - 1) = true :=
+  MbootProps.mem_commandTagsOf _ v t
+
+/-- the unique device id bytes decode back to exactly the device's words -/
+theorem device_uid_as_sent (raw : List Nat) (h : ∀ w ∈ raw, w < 2 ^ 32) :
+    MbootProps.fromLe4 (MbootProps.uidBytes raw) = raw :=
+  MbootProps.fromLe4_uidBytes raw (fun w hw => by simpa using h w hw)
+
 /-! ## non-vacuity and sanity examples -/
+
+example : (MbootProps.Version.fromInt 0x20010203).toInt = 0x00010203 := by decide
+example : MbootProps.parseProperty 0x0C [1, 2, 3, 0, 5, 6] = .ok (.regions [(1, 2), (5, 6)]) := by decide
 
 /-- a concrete device / host pair satisfying every hypothesis of the refinement theorems, and a history on it -/
 def exDev : Dev := { mem := [1, 2, 3, 4, 5, 6, 7, 8, 9, 10], maxPacket := 4, props := [(1, 77)], rwProps := [10] }
@@ -458,6 +581,11 @@ example : split 4 [1, 2, 3, 4, 5, 6, 7, 8, 9] = [[1, 2, 3, 4], [5, 6, 7, 8], [9]
 example : (⟨Sdp.Spec.cReadRegister, 0x20000000, 32, 4, 0⟩ : Sdp.Cmd).fits := by decide
 example : (⟨Sdp.Spec.cReadRegister, 0x20000000, 32, 4, 0⟩ : Sdp.Cmd).encode =
     [0x01, 0x01, 0x20, 0, 0, 0, 0x20, 0, 0, 0, 4, 0, 0, 0, 0, 0] := by decide
+example : Sdp.Synced { peer := .live { mem := [1, 2, 3] } } { mem := [1, 2, 3] } :=
+  ⟨Or.inl ⟨rfl, rfl⟩, rfl, rfl, rfl, rfl, by decide⟩
+example : Sdp.specOps false [.writeFile 1 [9, 9], .read 0 3 32] { mem := [1, 2, 3] } =
+    some ([(.ok (.bool true), 0, Sdp.Spec.rUnlocked), (.ok (.bytes [1, 9, 9]), 0, Sdp.Spec.rUnlocked)],
+          { mem := [1, 9, 9], ncmd := 2 }) := by decide
 example : Sdp.Silent {} := ⟨rfl, by simp, [], rfl, by simp⟩
 
 end SpsdkVerif.C10
